@@ -907,9 +907,47 @@ class Interp:
                 else:
                     return Unknown("dict with non-literal keys")
             return CellV({k: self.eval(v, state, rel) for k, v in zip(keys, e.values)})
+        if isinstance(e, ast.ListComp):
+            return self.list_comp(e, state, rel)
         if isinstance(e, ast.Lambda):
             return Unknown("lambda")
         return Unknown(f"expression {type(e).__name__}")
+
+    def list_comp(self, e: ast.ListComp, state: State, rel: str) -> Any:
+        if len(e.generators) != 1 or e.generators[0].ifs or e.generators[0].is_async:
+            return Unknown("comprehension with a filter or several generators")
+        g = e.generators[0]
+        it = self.eval(g.iter, state, rel)
+        out = ListV([])
+        items = None
+        if not (isinstance(it, RangeV) and it.lo.is_const() and it.hi.is_const() and it.hi.const - it.lo.const > max(1, self.unroll_ranges)):
+            items = self.concrete_items(it)
+        saved = {n.id: state.env.get(n.id, _MISSING) for n in ast.walk(g.target) if isinstance(n, ast.Name)}
+        try:
+            if items is not None:
+                for item in items:
+                    self.assign(g.target, item, state, rel)
+                    out.segs.append(Seg(self.eval(e.elt, state, rel), state.binders))
+                return out
+            fams = self.families(it)
+            if fams is None:
+                return Unknown(f"comprehension over {it!r}")
+            for elem, binders in fams:
+                self.assign(g.target, elem, state, rel)
+                saved_b = state.binders
+                state.binders = state.binders + tuple(binders)
+                try:
+                    v = self.eval(e.elt, state, rel)
+                finally:
+                    state.binders = saved_b
+                out.segs.append(Seg(v, state.binders + tuple(binders)))
+            return out
+        finally:
+            for k, v in saved.items():
+                if v is _MISSING:
+                    state.env.pop(k, None)
+                else:
+                    state.env[k] = v
 
     def compare_expr(self, e: ast.Compare, state: State, rel: str) -> Any:
         left = self.eval(e.left, state, rel)
@@ -1259,6 +1297,9 @@ class Interp:
         if name == "isinstance":
             return Unknown("isinstance")
         return Unknown(f"builtin {name}")
+
+
+_MISSING = object()
 
 
 class _Raise(Exception):
